@@ -603,6 +603,12 @@ func vwDecode(kind, form string, in []byte) (d vwDecoded, err error) {
 				return d, err
 			}
 			d.val = s
+		case "samplecoords":
+			var s SampleCoords
+			if err = json.Unmarshal(in, &s); err != nil {
+				return d, err
+			}
+			d.val = s
 		}
 	}
 	return d, nil
@@ -610,7 +616,7 @@ func vwDecode(kind, form string, in []byte) (d vwDecoded, err error) {
 
 func vwDecoderName(kind, form string) string {
 	names := map[string]string{"sample": "Sample", "row": "Row", "rnd": "RowNamespaceData", "nd": "NamespaceData",
-		"range": "RangeNamespaceData", "sampleid": "SampleID"}
+		"range": "RangeNamespaceData", "sampleid": "SampleID", "samplecoords": "SampleCoords"}
 	switch form {
 	case "pb":
 		return names[kind] + "FromProto"
